@@ -125,10 +125,35 @@ def run(ctx, model_ok):
                              "impl": v, "spec": str(c["spec"])})
         if len(ctx.samples) < 10 and nontrivial:
             ctx.sample({"text": c["text"], "impl": v, "spec": float(c["spec"])})
+    # the same phrases under the other separator conventions (literals rewritten into the convention): the formulas do not depend
+    # on how the calculator is configured to read and print numbers
+    other_texts = []
+    for (dec_, thou_) in [(".", ","), (".", ""), (",", "")]:
+        sub = [c for c in cases[:ctx.n(900, 12000)] if "'" not in c["text"]]
+        texts = [c["text"].replace(".", "\x00").replace(",", dec_).replace("\x00", thou_) for c in sub]
+        cfg_ = {"op": "cfg", "dec": dec_, "thou": thou_}
+        res2 = C.run_impl([cfg_] + [{"op": "exec", "lang": "en", "text": t} for t in texts] + [{"op": "cfg", "dec": ",", "thou": "."}])[1:-1]
+        for c, t2, r in zip(sub, texts, res2):
+            rops = [cfg_, {"op": "exec", "lang": "en", "text": t2}, {"op": "cfg", "dec": ",", "thou": "."}]
+            ctx.count(f"conv:{dec_}{thou_ or '∅'}")
+            ctx.seen((dec_, thou_, t2), Fraction(c["x"]) != 0 or Fraction(c["p"]) != 0)
+            l = r.get("lines", [None])[0] if "lines" in r else None
+            if not (l is not None and "ok" in l and l["ok"] is not None):
+                ctx.oracle_fail({"class": "no-value:" + c["phrase"] + ":other-convention", "what": f"the phrase did not evaluate to a value under dec={dec_!r} thou={thou_!r}",
+                                 "ops": rops, "impl": l if "lines" in r else r})
+                continue
+            v = l["ok"]
+            val = O.f64(v["v"]) if "v" in v else None
+            scale = max(abs(float(Fraction(c["x"]))), abs(float(Fraction(c["x"]) * Fraction(c["p"]) / 100)))
+            if v["t"] != c["kind"] or (c["kind"] == "M" and v["cur"].lower() != c["cur"]) or not O.close(val, c["spec"], scale):
+                ctx.oracle_fail({"class": "formula:" + c["phrase"] + ":other-convention", "what": f"under dec={dec_!r} thou={thou_!r}: {v}, the formula gives {float(c['spec'])!r} ({c['kind']})",
+                                 "ops": rops, "impl": v, "spec": str(c["spec"])})
+        other_texts += [(dec_, thou_, t) for t in texts[:ctx.n(150, 1500)]]
     # correspondence with the model (values bit-exact, kinds, output)
     if model_ok:
         co = wire.Corr(ctx, compare=("kind", "value"))
-        co.run([{"lang": "en", "text": c["text"]} for c in cases[:ctx.n(1500, 20000)]] + [{"lang": "en", "text": t} for t in curated])
+        co.run([{"lang": "en", "text": c["text"]} for c in cases[:ctx.n(1500, 20000)]] + [{"lang": "en", "text": t} for t in curated] +
+               [{"lang": "en", "text": t, "cfg": [{"op": "cfg", "dec": d_, "thou": t_}]} for (d_, t_, t) in other_texts])
         ctx.dist.update({"corr:" + k: v for k, v in co.stats.items()})
 
 
